@@ -156,6 +156,7 @@ def run_case(case):
         seen = [0]
         sent_seen = [len(prot.transport.sent)]
         events = []   # model events of the current group, in step order
+        group_events = []
         calls = model.calls
 
         def scan():
@@ -181,6 +182,7 @@ def run_case(case):
             now = sim.now
             scan()
             model.explain(events, now)
+            group_events.extend(events)
             del events[:]
             for p in model.live:
                 require(latest.get(p) == "subscribed", "C06.liveness", lambda: f"{p} live in the model but latest is {latest.get(p)!r}")
@@ -263,16 +265,22 @@ def run_case(case):
                 prot.announcer.announce_service(insts[1])
 
         def after_group(i0, i1):
-            # (3) acknowledged => held (groups in which something may legitimately end the subscription again are skipped)
+            # (3) acknowledged => held, unless something later in the same group legitimately ended it again
             acks = [e for e in sent_entries(prot.transport, sent_seen[0]) if e["type"] == wire.SUBSCRIBE_ACK and e["ttl"] > 0]
             sent_seen[0] = len(prot.transport.sent)
-            removal = any(steps[k]["op"] in ("svc-stop", "lost", "unannounce") or
-                          (steps[k]["op"] == "msg" and (steps[k].get("sess") in ("reset", "repeat") or any(e["t"] == "stopsub" for e in steps[k]["entries"])))
-                          for k in range(i0, i1))
-            if removal:
-                return
+            evs = list(group_events)
+            del group_events[:]
+            lifecycle_in_group = any(steps[k]["op"] in ("svc-stop", "lost", "unannounce") for k in range(i0, i1))
             for a in acks:
                 ident = (a["service"], a["instance"], a["major"], a["eventgroup"], a["counter"])
+                pairs = [ev[1] for ev in evs if ev[0] == "add" and ev[1][0] == a["dest"] and ev[1][1][:5] == ident]
+                ended_after = False
+                for p in set(pairs):
+                    last_add = max(n for n, ev in enumerate(evs) if ev[0] == "add" and ev[1] == p)
+                    if any(ev[0] == "end" and ev[1](p) for ev in evs[last_add + 1:]):
+                        ended_after = True
+                if ended_after or lifecycle_in_group:
+                    continue
                 require(any(p[0] == a["dest"] and p[1][:5] == ident for p in model.live), "C06.acknowledged-not-held",
                         lambda: f"positive SubscribeAck {ident} ttl={a['ttl']} sent to {a['dest']} at t={a['t']:.6f}, but no such subscription is recorded at the next idle point (t={sim.now:.6f})")
 
